@@ -1,1 +1,15 @@
 import PeptVerif.Props.C13
+#print axioms Pept.ModBuilder.static_spec
+#print axioms Pept.ModBuilder.static_unmatched_untouched
+#print axioms Pept.ModBuilder.static_matched_unmodified
+#print axioms Pept.ModBuilder.static_skip_idempotent
+#print axioms Pept.ModBuilder.applyVariable_eq
+#print axioms Pept.ModBuilder.variable_skip_exact
+#print axioms Pept.ModBuilder.variable_skip_nodup
+#print axioms Pept.ModBuilder.variable_input_included
+#print axioms Pept.ModBuilder.variable_changes_confined
+#print axioms Pept.ModBuilder.variable_no_form_twice
+#print axioms Pept.ModBuilder.siteOK_append_of_nodup
+#print axioms Pept.ModBuilder.siteOK_overwrite_of_nodup
+#print axioms Pept.ModBuilder.variable_skip_nodup_false_before_repair
+#print axioms Pept.ModBuilder.variable_skip_exact_false_before_repair
